@@ -8,7 +8,7 @@
 #include "idn/api.h"
 
 long verif_idn_creates = 0, verif_idn_destroys = 0, verif_idn_live = 0, verif_idn_bad_use = 0,
-     verif_idn_double_destroy = 0, verif_idn_encodes = 0;
+     verif_idn_double_destroy = 0, verif_idn_encodes = 0, verif_idn_bad_actions = 0;
 
 int idna_to_ascii_lz(const char *input, char **output, int flags)
 {
@@ -53,7 +53,8 @@ idn_result_t idn_res_encodename(idn_resconf_t ctx, idn_action_t actions, const c
 {
     char *out = NULL;
     int rc;
-    (void)actions;
+    /* the real library interprets `actions`: anything but the documented encode action sets is a caller bug */
+    if (actions != IDN_ENCODE_REGIST && actions != IDN_ENCODE_LOOKUP) verif_idn_bad_actions++;
     verif_idn_encodes++;
     if (ctx == NULL || ctx->magic != CTX_MAGIC_LIVE) verif_idn_bad_use++;
     rc = idn2_to_ascii_8z(from, &out, IDN2_NONTRANSITIONAL);
